@@ -73,12 +73,27 @@ def KState.detach (s : KState) (k : Key) : M KState := do
       s.flagCheckAfterSources k
     else pure s
 
+/-- Walking up the creator links from `c` (root excluded) meets `k`: `c` is `k` or one of its
+(recursive) products.  The walk is the loop of `Trellis.raise_if_created_by`. -/
+def KState.createdBy (s : KState) (k c : Key) : Bool :=
+  let rec go (fuel : Nat) (cur : Key) : Bool :=
+    match fuel with
+    | 0 => false
+    | fuel + 1 =>
+      if cur.kind = .root then false
+      else if cur = k then true
+      else match (s.find? cur).bind (·.creator) with
+        | some p => go fuel p
+        | none => false
+  go (s.nodes.length + 1) c
+
 /-- `Node.reattach` (+ `Step.reattach`). -/
 def KState.reattach (s : KState) (k c : Key) : M KState := do
   match s.find? k with
   | none => throw .value
   | some n =>
     if !n.detached then throw .value
+    if s.createdBy k c then throw (.graph "recreated by itself or by one of its own products")
     let d := s.isDetached c
     let s ← s.setCreator k (some c) d
     let s ← match n.creator with
@@ -147,6 +162,7 @@ def KState.create (s : KState) (k : Key) (creator : Option Key) (init : Init) : 
   match s.find? k with
   | some n =>
     if !n.detached then throw .consistency
+    if creator = some k then throw (.graph "recreated by itself")
     let d := match creator with | some c => s.isDetached c | none => true
     let s ← s.setCreator k creator d
     let s ← match n.creator with
